@@ -12,7 +12,7 @@
     fuel), run on the encoded table over the default scopes, returns success, and the sorted namespace view of the
     resulting tree (Aml/View.v) IS the namespace [ns] the specification assigns to the program (Aml/Grammar.v). *)
 From Coq Require Import NArith List.
-From FF Require Import Aml.Grammar Aml.WfProgram Aml.ParserFragF0Final.
+From FF Require Import Aml.Grammar Aml.WfProgram Aml.ParserFragF0Final Aml.ParserFragF1Final.
 Import ListNotations.
 Local Open Scope N_scope.
 
@@ -20,3 +20,18 @@ Theorem C11_parse_encode_partial : forall tables,
   wf_program tables = true -> in_fragment_F0 tables = true -> parse_encode_statement tables.
 Proof. exact parse_encode_F0. Qed.
 Print Assumptions C11_parse_encode_partial.
+
+(** Fragment F1 ([in_fragment_F1], a boolean): ONE table; every item is either [Name(SEG, c)] as in F0 or
+    [Device(SEG){ items }] - a Device block with a single-NameSeg name (no root / parent prefix, not a MultiNamePath)
+    whose body consists of items of the fragment again, nested to ANY depth, with any PkgLength width (1-4 bytes)
+    that is admissible for the block; any number of items; the encoded table is shorter than 2^28 bytes.
+    Productions inside the fragment: DefName, DefDevice (PkgLength, NameString = NameSeg, TermList of DefName / DefDevice),
+    DataRefObject = ConstObj | ByteConst | WordConst | DWordConst | QWordConst.  F0 is the sub-fragment without Device.
+
+    The proof covers the nested scope / pkgEnd stacks of the first pass, the recursion of connectNamedObjArgs into the
+    ScopeBlock of every Device, and the fact that the view lists a Device after its body whereas [ns] lists it first
+    (the two listings are permutations, and the insertion sort of Aml/Grammar.v is invariant under permutations). *)
+Theorem C11_parse_encode_partial_F1 : forall tables,
+  wf_program tables = true -> in_fragment_F1 tables = true -> parse_encode_statement tables.
+Proof. exact parse_encode_F1. Qed.
+Print Assumptions C11_parse_encode_partial_F1.
